@@ -31,6 +31,12 @@ checks = {
  "C10": dict(design="4/C10", engine="tlc-tx", technique="TLC model checking of the body buffers of Tx.tla (bytes = positions of the supplied stream; invariants Faithful, RejectExact, PartialExact, BodyVarIsStoredPrefix over all chunkings and entry-point mixes) + replay of every edge on a real transaction at sizes x1, x4096 (x40000)",
    text="Body buffering is modelled with bytes identified by their position in the supplied stream, so byte-faithfulness and the limit relations are state invariants that TLC checks over every partition into chunks, every mix of slice / known-length reader / unknown-length reader writes and both limit actions; every edge is replayed on a real transaction (memory limit below the hard limit, so bodies spill to disk) comparing bytes taken, reader contents, REQUEST_BODY seen by the body phase, the data-error variables and the refusal.",
    note="Trusts TLC and the projection. The byte count returned together with a refusal, and the buffer content after a refusal, are left open."),
+ "C05": dict(design="4/C05", engine="tlc-pool", technique="TLC model checking of Pool.tla (pooled Transaction object as default/dirty fields, Close / NewTransaction reset lists; invariants FreshAfterNew, ReadersDead over all predecessor histories) + replay of every history on a real WAF: reflective snapshot of the recycled object vs a brand-new one, probe transaction vs fresh WAF, stale readers",
+   text="The recycling protocol (fields dirtied by what a predecessor does, reset lists of Close and NewTransaction, readers surviving Close) is an explicit TLA+ model checked over all predecessor histories; every history is replayed on a real WAF where the pool really hands the same object back, the recycled object is compared field by field (reflection over every struct field and every variable collection, including key counts) with a brand-new one, and a probe transaction's complete observable outcome is compared with the same probe on a fresh WAF.",
+   note="Trusts TLC, sync.Pool handing the object back on one goroutine (checked by pointer identity), the verif snapshot accessors. The model's Dirties table is bound to the code by a dirty-set check (a mismatch is exit 2, a model error)."),
+ "C20": dict(design="4/C20", engine="tlc-fsfault", technique="TLC model checking of FsFault.tla (file-system operations of a transaction with one injected failure and abandonment points; invariants NoLeak, Surfaced, NoSilentInspection) + replay of every case on the real library through the verif fault-injection hook; audit write failure against /dev/full",
+   text="Every file-system operation of a transaction (spill create/copy/write/read, upload create/copy, removals and buffer close at Close) is an explicit step of FsFault.tla; TLC enumerates every single-fault position x abandonment point x keep-files mode x body placement and checks the leak and surfacing invariants; each case is replayed with the fault hook firing exactly at that operation, private temp and upload directories are listed afterwards and errors / error variables / error-level log entries collected; a probe transaction on the recycled object is compared with a fresh WAF.",
+   note="Trusts TLC and the fault hook (it fails exactly the operation it precedes). Two simultaneous faults are not generated."),
 }
 
 not_built_reason = "check under construction in this session (see DESIGN.md section 4); not claimed until its machinery is committed"
@@ -47,6 +53,8 @@ manifest = {
  },
  "engines": [
    {"name":"tlc-tx","path":"spec/Tx.tla, spec/Tx_MC.tla","serves_properties":["C02","C10","C18","C05","C20"],"kind_free_text":"TLA+ specification of the Transaction API and body buffers on top of Engine.tla; TLC explores all call sequences, every edge replayed on a real transaction"},
+   {"name":"tlc-pool","path":"spec/Pool.tla","serves_properties":["C05"],"kind_free_text":"TLA+ model of transaction recycling"},
+   {"name":"tlc-fsfault","path":"spec/FsFault.tla","serves_properties":["C20"],"kind_free_text":"TLA+ model of the file-system life of a transaction with fault injection"},
    {"name":"tlc-engine","path":"spec/Engine.tla, spec/Scen.tla, spec/Engine_MC.tla, spec/Engine_Trace.tla","serves_properties":["C01","C04","C08","C09","C12","C17"],"kind_free_text":"TLA+ specification of the rule interpreter; TLC enumerates scenarios + allowed outcomes (spec->code replay) and validates recorded executions (code->spec)"},
  ],
  "checks": [],
